@@ -107,10 +107,16 @@ func c04Variants(h *hctx) []timedCase {
 				r.exec([]int{14}, func() []int { return []int{7, r.b.Size()} })
 				r.exec([]int{9}, func() []int { return valsOut(8, r.b.Slice()) })
 				r.record(id, []int{kind, mx, tg})
-				for c := range r.cons {
-					_ = r.cons[c].Rollback()
+				for _, cancel := range r.getStop {
+					cancel()
 				}
-				go r.b.Close()
+				go func() {
+					time.Sleep(5 * time.Millisecond)
+					for c := range r.cons {
+						_ = r.cons[c].Rollback()
+					}
+					r.b.Close()
+				}()
 			}}
 	}
 	commitN := func(r *bufRun, c, n int) {
@@ -143,6 +149,40 @@ func c04Variants(h *hctx) []timedCase {
 			time.Sleep(gap)
 			// closing the slowest consumer releases its hold
 			r.exec([]int{10, 1}, func() []int { return errOut(r.cons[1].Close()) })
+		}),
+		mk("parked", 0, 0, 0, cd, func(r *bufRun, gap time.Duration) {
+			// fast consumers that have committed everything are parked in Get at the tail (waiters on the buffer's cond
+			// queued ahead of the cleaner) when the slowest consumer commits: the cleaner must still be woken
+			for i := 0; i < 4; i++ {
+				r.newConsumer()
+			}
+			r.put(2, false)
+			for c := 0; c < 3; c++ {
+				commitN(r, c, 2)
+			}
+			time.Sleep(gap)
+			for c := 0; c < 3; c++ {
+				r.get(c) // parks
+			}
+			commitN(r, 3, 2)
+		}),
+		mk("closeslow2", 0, 0, 0, cd, func(r *bufRun, gap time.Duration) {
+			// a prefix has already been reclaimed (base > 0) when the lagging consumer is closed; a faster one stays open
+			r.newConsumer()
+			r.newConsumer()
+			r.put(5, false)
+			commitN(r, 0, 2)
+			commitN(r, 1, 2)
+			time.Sleep(3*cd + 5*time.Millisecond) // let the cleaner reclaim the first two
+			commitN(r, 0, 2)
+			time.Sleep(gap)
+			r.exec([]int{10, 1}, func() []int { return errOut(r.cons[1].Close()) })
+		}),
+		mk("fixednocons", 1, 3, 2, cd, func(r *bufRun, gap time.Duration) {
+			// no consumer at all: the Put that pushes the size over max lands inside the cooldown window of the first
+			r.put(2, false)
+			time.Sleep(gap / 2)
+			r.put(4, false)
 		}),
 		mk("nocooldown", 0, 0, 0, 0, func(r *bufRun, gap time.Duration) {
 			r.newConsumer()
